@@ -468,6 +468,18 @@ def run(run):
                 (sec + line + "\n" if sec else "") + "~C\nDEPT.M : d\nA. : a\n~A\n1.0 5\n2.0 6\n")
         for ver in (2.0, 1.2):
             cycle(run, {"kind": "text", "text": text}, dict(PLAIN, version=ver), {}, K, ["special:comma-list"], pend)
+    # the four ~Well mnemonics whose 1.2 layout is value : descr, spelt in lower / mixed case, read with every mnemonic_case (the reader's
+    # and the writer's order look-ups must agree on them under every spelling; no random draw: seeded change C11-s)
+    for names in (("Strt", "Stop", "Step", "Null"), ("strt", "stop", "step", "null"), ("STRT", "STOP", "STEP", "Null"), ("STRT", "STOP", "STEP", "nULL")):
+        for inver in ("1.2", "2.0"):
+            if inver == "1.2":
+                well = ("%s.M 1.0 : START DEPTH\n%s.M 2.0 : STOP DEPTH\n%s.M 1.0 : STEP\n%s. -999.25 : NULL VALUE\nCOMP. COMPANY : ANY OIL\n" % names)
+            else:
+                well = ("%s.M 1.0 : START DEPTH\n%s.M 2.0 : STOP DEPTH\n%s.M 1.0 : STEP\n%s. -999.25 : NULL VALUE\nCOMP. ANY OIL : COMPANY\n" % names)
+            text = "~V\nVERS. %s : v\nWRAP. NO : w\n~W\n" % inver + well + "~C\nDEPT.M : d\nA. : a\n~A\n1.0 5\n2.0 6\n"
+            for mc in ("preserve", "lower", "upper"):
+                for ver in (None, 1.2, 2.0):
+                    cycle(run, {"kind": "text", "text": text}, dict(PLAIN, version=ver), {"mnemonic_case": mc}, K, ["special:well-order-case"], pend)
     for text, tag in special_docs(rng):
         for j in range(run.budget(2, 6)):
             cfg = PLAIN if j == 0 else gen_cfg(rng, plain=rng.random() < 0.3)
@@ -620,3 +632,5 @@ LEVEL_NOTE = ("THE REFRESH INSIDE THE CYCLE (Props/C11Refresh.lean): C11_refresh
               "STRT/STOP/STEP and units within the composed cycle, text columns, non-conformant lines (the known findings).")
 
 RULE = RULE + ("; ALSO (fifth session): stream `ro.full` (LasioModel/ReadObjFull.lean: typed sections, every cell, index_initial vs lasio.read); special documents `decimal-unit`")
+RULE = RULE + ("; (sixth session) directed `special:well-order-case`: STRT/STOP/STEP/NULL in lower and mixed case x input version 1.2 / 2.0 x "
+               "mnemonic_case preserve / lower / upper x output version None / 1.2 / 2.0")
